@@ -5,12 +5,14 @@ kernels may vectorise differently); D' = 1 equals the plain NumPy value of the p
 sweep: adjoint coefficients of order < D' computed from inputs and seeds truncated to D' equal those of the full sweep.
 """
 import numpy as np
+from hypothesis import strategies as st
 
 from algopy import UTPM
 
 from ..runner import Bucket, Violation, Inconclusive, Rejected, guard
 from .. import prog as PG
 from . import _meta as M
+from .. import gen
 
 PID = 'C12'
 RULE = ('single-operation buckets (each public operation family first, then up to 2 cheap instructions) and composition buckets from the '
@@ -64,6 +66,44 @@ def prop_reverse(case, stats):
             M.close(b, a[:Dp], TOL, 'adjoint of input %d: coefficients from a sweep with D\'=%d vs the first %d of D=%d' % (i, Dp, Dp, D), stats)
 
 
+def prop_drivers_padded(case, stats):
+    """the forward drivers read the coefficient that DEFINES the derivative (order 1: Jacobian, order 2: Hessian): propagating
+    the init_* rays with extra, arbitrary higher coefficients must not change what extract_* returns"""
+    x0 = np.array(case['pts'][0][1], dtype=float)
+    N = x0.size
+    v = case['v']
+    drv = case['driver']
+    X = {'jacobian': lambda: UTPM.init_jacobian(x0), 'jac_vec': lambda: UTPM.init_jac_vec(x0, v),
+         'hessian': lambda: UTPM.init_hessian(x0), 'hess_vec': lambda: UTPM.init_hess_vec(x0, v)}[drv]()
+    ex = {'jacobian': lambda y: UTPM.extract_jacobian(y), 'jac_vec': lambda y: UTPM.extract_jac_vec(y),
+          'hessian': lambda y: UTPM.extract_hessian(N, y), 'hess_vec': lambda y: UTPM.extract_hess_vec(N, y)}[drv]
+    D0, P = X.data.shape[:2]
+    pad = np.resize(case['pad'], (case['k'], P, N))
+    Xp = UTPM(np.concatenate([X.data, pad]))
+    y = guard(lambda: PG.run(case['prog'], [UTPM(X.data.copy())])[case['out']])
+    yp = guard(lambda: PG.run(case['prog'], [Xp])[case['out']])
+    if not isinstance(y, UTPM) or not isinstance(yp, UTPM):
+        raise Inconclusive('output is not a UTPM')
+    ref = np.asarray(guard(ex, y), dtype=float)
+    got = np.asarray(guard(ex, yp), dtype=float)
+    M.close(got, ref, TOL, '%s extracted from the rays carried with %d extra coefficients vs with exactly D=%d' % (drv, case['k'], D0), stats)
+
+
+@st.composite
+def padded_cases(draw, tier):
+    drv = draw(st.sampled_from(['hessian', 'hess_vec', 'jacobian', 'jac_vec', 'hessian']))
+    pr = draw(PG.programs(n_inputs=(1, 1), in_rank=(1,), max_side=3, max_len=6, min_len=1,
+                          out='scalar' if drv in ('hessian', 'hess_vec') else 'any', K=4, allow_ones=False))
+    case = dict(pr)
+    N = pr['pts'][0].shape[1]
+    case['driver'] = drv
+    case['v'] = draw(gen.float_array((N,), gen.nice_floats(-1.0, 1.0), sparse=False))
+    case['k'] = draw(st.integers(1, 3))
+    case['pad'] = draw(gen.float_array((3, 2, N), gen.coeff_elements(1.0), sparse=False))
+    case['D'], case['P'] = 3 + case['k'], 1
+    return case
+
+
 def _nontrivial(case):
     if case['D'] < 4:
         return False
@@ -88,6 +128,10 @@ def buckets(tier):
     bl.append(Bucket('fwd:compose', (lambda: M.meta_cases(tier, max_len=8, Dmin=2)), prop_forward,
                      {'quick': 40, 'thorough': 600}, nontrivial=_nontrivial, classes=M.base_classes,
                      shards={'quick': 6, 'thorough': 12}, weight=4.0))
+    bl.append(Bucket('drivers-padded', (lambda: padded_cases(tier)), prop_drivers_padded, {'quick': 150, 'thorough': 1500},
+                     nontrivial=(lambda case: 'nonlinear' in PG.features(case) and np.any(case['pad'] != 0)),
+                     classes=(lambda case: ['driver=' + case['driver'], 'extra=%d' % case['k']] + PG.features(case)),
+                     shards={'quick': 3, 'thorough': 8}, weight=3.0))
     for fam in M.REV_SINGLE:
         bl.append(Bucket('rev:' + fam, (lambda fam=fam: M.meta_cases(tier, first=fam, families=M.CHEAP_TAIL, max_len=3, Dmin=2, reverse_mode=True)),
                          prop_reverse, {'quick': 25, 'thorough': 250}, nontrivial=_nontrivial, classes=M.base_classes, weight=2.0))
